@@ -179,9 +179,18 @@ def iterate_harness(name):
     return Harness(name, fn, bounds={"shapes": shapes}, free=["shape", "top-level class"], cut0=6)
 
 
+def after_run_harness():
+    from env.scenario import Profile
+    from props.common import scenario_harness
+    from props import oracles as O
+    # order of the two calls matters: compute_backlinks=False is asked first, on what the run left behind
+    return scenario_harness("queries-after-a-run", Profile(templates=("F4",), crit_job=False, perm="two", top="pure"),
+                            [O.c17_after_run])
+
+
 def harnesses(tier):
     if tier == "quick":
-        return [query_harness("dag4", 4, "two", ["pure", "sched"], ["none", "remove-edge", "move-edge", "remove-job", "add-job"]),
+        return [after_run_harness(), query_harness("dag4", 4, "two", ["pure", "sched"], ["none", "remove-edge", "move-edge", "remove-job", "add-job"]),
                 iterate_harness("iterate-jobs")]
     return [query_harness("dag5", 5, "two", ["pure"], ["none", "remove-job"]),
             query_harness("dag4-all-orders", 4, "free", ["pure", "sched"],
